@@ -7,12 +7,14 @@ package main
 // position, (3) malformed lines for ParseGlobals and EvalExpr.
 
 import (
+	"fmt"
 	"math"
 	"regexp"
 	"strconv"
 	"strings"
 
 	"github.com/robfig/soy/data"
+	"github.com/robfig/soy/soyhtml"
 	"soyverif/internal/hx"
 )
 
@@ -216,4 +218,176 @@ func c06TemplateBody(files []srcFile, name string) string {
 		}
 	}
 	return all.String()
+}
+
+// c06CheckDepth ties C06_render_total_depth to the run: for a recursion plan whose call depth d is known by
+// construction, the model walker capped at d must answer with fuel reg_height*(d+1) (the theorem's bound),
+// capped at d-1 it must report the cap (d is the depth the run really reaches), and render with that fuel
+// must not run out of fuel.
+func c06CheckDepth(e *env, p c06Plan, m []string) {
+	d := p.depth - 1
+	e.res.Histogram["depth-bound-checked"]++
+	if len(m) != 4 {
+		e.res.Fail(hx.Violation{Kind: "mismatch", What: "model c06_depth failed", Case: p.c, Observed: fmt.Sprint(m)}, "")
+		return
+	}
+	want := []string{"answer", "capped", "answer"}
+	if d == 0 {
+		want[1] = "none"
+	}
+	if m[1] != want[0] || m[2] != want[1] || m[3] != want[2] {
+		e.res.Fail(hx.Violation{Kind: "mismatch",
+			What:     fmt.Sprintf("the fuel bound reg_height*(d+1) of C06_render_total_depth does not behave as proved on a run of call depth d=%d (fuel %s): capped walk at d / at d-1 / render", d, m[0]),
+			Case:     p.c, Expected: strings.Join(want, " "), Observed: strings.Join(m[1:], " ")}, "")
+	}
+}
+
+// c06BytesMax bounds the inputs handed to the byte-string model (scanner + parser models run in the model
+// runner; a 64 KiB line of parentheses would be parsed by recursion there)
+const c06BytesMax = 4096
+
+// c06CompareBytes compares one answer of the byte-string model (c06_eval_bytes / c06_globals_bytes:
+// scanner model -> parser model -> evaluator, no parse result supplied by the implementation) with the
+// implementation's class and value.  implCls: ok | error (evaluation or parse error).
+func c06CompareBytes(e *env, what string, c interface{}, implCls, implVal string, m []string, canon func(string) string, skipValue bool) {
+	if len(m) == 0 || strings.HasPrefix(m[0], "!") {
+		e.res.Fail(hx.Violation{Kind: "mismatch", What: "byte-string model of " + what + " failed", Case: c, Observed: fmt.Sprint(m)}, "")
+		return
+	}
+	e.res.Histogram[what+"-bytes-model:"+m[0]]++
+	switch m[0] {
+	case "outofmodel", "fuel":
+	case "ok":
+		if implCls != "ok" {
+			e.res.Fail(hx.Violation{Kind: "mismatch", What: what + " returns an error, the byte-string model (scanner+parser+evaluator) a value", Case: c, Expected: strings.Join(m[1:], " "), Observed: implVal}, "")
+		} else if got, want := canon(implVal), canon(strings.Join(m[1:], " ")); got != want && !skipValue {
+			e.res.Fail(hx.Violation{Kind: "mismatch", What: what + "'s value differs from the byte-string model (scanner+parser+evaluator)", Case: c, Expected: want, Observed: got}, "")
+		}
+	case "err":
+		if implCls != "error" {
+			e.res.Fail(hx.Violation{Kind: "mismatch", What: "the byte-string model (scanner+parser+evaluator) reports an error, " + what + " returns a value", Case: c, Expected: m[0], Observed: implVal}, "")
+		}
+	default:
+		e.res.Fail(hx.Violation{Kind: "mismatch", What: "the byte-string model predicts " + m[0] + " but " + what + " returned normally", Case: c, Observed: implCls}, "")
+	}
+}
+
+// c06JsonPlans: the entries of the extended model (Model/InterpExt.v) on every kind of value -- |json and
+// |escapeJsString alone and in chains with the directives that hand the value through (noAutoescape, a
+// truncate with nothing to cut) or replace it by a string, and round(x, digits).
+func c06JsonPlans() []c06Plan {
+	chains := []string{"json", "escapeJsString", "noAutoescape|json", "truncate:100|json", "truncate:2|json", "truncate:5,false|json",
+		"json|escapeJsString", "escapeHtml|json", "json|truncate:5", "json|noAutoescape", "escapeJsString|json", "json|json",
+		"changeNewlineToBr|json", "escapeUri|json", "insertWordBreaks:3|json", "json|id", "bidiSpanWrap|json", "json:1"}
+	var sb strings.Builder
+	sb.WriteString("{namespace jv}\n")
+	names := []string{}
+	for j, ch := range chains {
+		sb.WriteString("\n/**\n * @param? v\n */\n{template .c" + strconv.Itoa(j) + "}\n[{$v|" + ch + "}]\n{/template}\n")
+		names = append(names, "jv.c"+strconv.Itoa(j))
+	}
+	for j, d := range []string{"1", "2", "3", "-1", "0", "15", "16", "'x'", "1.0"} {
+		sb.WriteString("\n/**\n * @param? v\n */\n{template .r" + strconv.Itoa(j) + "}\n[{round($v, " + d + ")}|{round($v, " + d + ")|json}]\n{/template}\n")
+		names = append(names, "jv.r"+strconv.Itoa(j))
+	}
+	files := []srcFile{{Name: "jv.soy", Text: sb.String()}}
+	vals := []data.Value{
+		data.Null{}, data.Undefined{}, data.Bool(true), data.Bool(false), data.Int(0), data.Int(-5), data.Int(math.MaxInt64), data.Int(math.MinInt64),
+		data.Float(1.5), data.Float(math.Copysign(0, -1)), data.Float(0), data.Float(0.5), data.Float(-2.5), data.Float(2.5), data.Float(1.25), data.Float(0.125),
+		data.Float(100000.25), data.Float(999999.5), data.Float(1e6), data.Float(1e300), data.Float(1e-7), data.Float(0.1), data.Float(3),
+		data.Float(math.NaN()), data.Float(math.Inf(1)), data.Float(math.Inf(-1)),
+		data.String(""), data.String("a<b>&'\"=c"), data.String("\u2028x\u2029"), data.String("h\u00e9llo"), data.String("\xff\xfe tail"), data.String("\x00\x01\x1f\x7f"),
+		data.String("</script>"), data.String("\u65e5\u672c\u8a9e"), data.String("\U0001F600"), data.String("\ufffd"), data.String("line1\nline2\r\n\ttab\\back"),
+		data.String("\u200b\u00ad\ufeff"), data.String("\xe2\x80"), data.String("\xed\xa0\x80"),
+		data.List(nil), data.List{}, data.List{data.Int(1), data.String("a"), data.Null{}}, data.List{data.List{}, data.List{data.List{data.Float(1.5)}}},
+		data.List{data.Undefined{}, data.Int(2)}, data.List{data.Float(math.NaN())}, data.List{data.Float(0.1)},
+		data.Map{}, data.Map(nil), data.Map{"b": data.Int(1), "a": data.Map{"z": data.Null{}, "y": data.List{data.Bool(true)}}},
+		data.Map{"<k>": data.Int(1), "\"q\"": data.Int(2), "\u00e9": data.Int(3), "": data.Int(4), "\xff": data.Int(5)}, data.Map{"u": data.Undefined{}},
+		data.Map{"f": data.Float(math.Inf(1))}, data.Map{"l": data.List(nil), "m": data.Map(nil)},
+	}
+	var plans []c06Plan
+	for _, v := range vals {
+		dsx := valueSexp(data.Map{"v": v}, newIDTable())
+		for _, n := range names {
+			plans = append(plans, c06Plan{c: c06Render{Kind: "render", Files: files, Template: n, Data: dsx, Tag: "json-values"}, nontriv: true, hasJSON: true})
+		}
+	}
+	return plans
+}
+
+// c06RangeGrid: range(i, limit, step) on the implementation for a grid of starts, limits and steps around
+// both ends of int64 (negative starts with limits near MaxInt64 and steps whose additions overflow), keeping
+// only triples whose exact result is short.  A loop that goes on after the index wrapped around shows up as
+// a hang or as memory exhaustion in the worker.
+func c06RangeGrid(add func(tag, text string)) {
+	vals := []int64{-9223372036854775807, -9223372036854775806, -4611686018427387904, -5, -1, 0, 1, 3, 4611686018427387904, 9223372036854775800, 9223372036854775806, 9223372036854775807}
+	steps := []int64{1, 3, 4611686018427387904, 4611686018427387905, 9223372036854775800, 9223372036854775806, 9223372036854775807}
+	for _, i := range vals {
+		for _, l := range vals {
+			for _, st := range steps {
+				if l > i && (float64(l)-float64(i))/float64(st) > 40 {
+					continue
+				}
+				add("range-grid", "range("+strconv.FormatInt(i, 10)+", "+strconv.FormatInt(l, 10)+", "+strconv.FormatInt(st, 10)+")")
+			}
+		}
+	}
+}
+
+// ---------------------------------------------------------------------------
+// functions and directives supplied by the user (entries added to soyhtml.Funcs / soyhtml.PrintDirectives):
+// what the recover wrappers of evalFunc / evalPrint make of code that returns, returns nil or panics.
+// The same behaviours are the user tables of the model op c06_render_user (ocaml/ops_safety.ml).
+
+func c06InstallUserCode() {
+	soyhtml.Funcs["userPanic"] = soyhtml.Func{Apply: func(a []data.Value) data.Value { panic("boom") }, ValidArgLengths: []int{0, 1}}
+	soyhtml.Funcs["userRuntime"] = soyhtml.Func{Apply: func(a []data.Value) data.Value {
+		var m map[string]int
+		m["x"] = 1 // assignment to entry in nil map: a run-time error inside the user's code
+		return nil
+	}, ValidArgLengths: []int{0}}
+	soyhtml.Funcs["userNil"] = soyhtml.Func{Apply: func(a []data.Value) data.Value { return nil }, ValidArgLengths: []int{0}}
+	soyhtml.Funcs["userId"] = soyhtml.Func{Apply: func(a []data.Value) data.Value { return a[0] }, ValidArgLengths: []int{1}}
+	soyhtml.Funcs["userLen"] = soyhtml.Func{Apply: func(a []data.Value) data.Value { return data.Int(len(a[0].(data.List))) }, ValidArgLengths: []int{1}}
+	soyhtml.PrintDirectives["udPanic"] = soyhtml.PrintDirective{Apply: func(v data.Value, a []data.Value) data.Value { panic(fmt.Errorf("boom")) }, ValidArgLengths: []int{0}, CancelAutoescape: true}
+	soyhtml.PrintDirectives["udNil"] = soyhtml.PrintDirective{Apply: func(v data.Value, a []data.Value) data.Value { return nil }, ValidArgLengths: []int{0}}
+	soyhtml.PrintDirectives["udId"] = soyhtml.PrintDirective{Apply: func(v data.Value, a []data.Value) data.Value { return v }, ValidArgLengths: []int{0}}
+	soyhtml.PrintDirectives["udCount"] = soyhtml.PrintDirective{Apply: func(v data.Value, a []data.Value) data.Value { return data.Int(len(v.(data.List))) }, ValidArgLengths: []int{0}, CancelAutoescape: true}
+}
+
+func c06UserPlans() []c06Plan {
+	bodies := []string{
+		"{userPanic()}", "{userPanic($v)}", "{userRuntime()}", "{userNil()}", "{userNil() ?: 'd'}", "{userId($v)}", "{userLen($v)}",
+		"{userId()}", "{userId($v, 1)}", "{userPanic(userNil())}", "{if userNil()}a{else}b{/if}", "{userId($v) + 1}", "{userId(userId($v))}",
+		"a{userId($v)|udCount}b", "{$v|udPanic}", "{$v|udNil}", "{$v|udNil|json}", "{$v|udNil|noAutoescape}", "{$v|udNil|udId}", "{$v|udNil|udId|json}",
+		"{$v|udNil|escapeHtml}", "{$v|udNil|escapeJsString}", "{$v|udNil|truncate:3}", "{$v|udNil|udCount}", "{$v|udId}", "{$v|udId|json}", "{$v|udCount}",
+		"{$v|udCount|json}", "{$v|json|udCount}", "{$v|udId:1}", "{$v|noAutoescape|udCount}", "{$v|truncate:100|udCount}", "{$v|truncate:1|udCount}",
+		"{foreach $x in userId($v)}[{$x}]{ifempty}none{/foreach}", "{let $w: userId($v) /}{$w|udId}", "x{userPanic()}y{$v}", "{userLen(userId($v))|udId}",
+	}
+	var sb strings.Builder
+	sb.WriteString("{namespace uc}\n")
+	var names []string
+	for j, body := range bodies {
+		doc := "\n/**\n */\n"
+		if c06UsesVar(body, "v") {
+			doc = "\n/**\n * @param? v\n */\n"
+		}
+		sb.WriteString(doc + "{template .t" + strconv.Itoa(j) + "}\n" + body + "\n{/template}\n")
+		names = append(names, "uc.t"+strconv.Itoa(j))
+	}
+	files := []srcFile{{Name: "uc.soy", Text: sb.String()}}
+	vals := []data.Value{data.Undefined{}, data.Null{}, data.Int(3), data.String("a<b"), data.List{data.Int(1), data.Int(2)}, data.List{}, data.List(nil),
+		data.Map{"k": data.Int(1)}, data.Float(math.NaN()), data.List{data.Undefined{}}, data.Bool(false)}
+	var plans []c06Plan
+	for _, v := range vals {
+		m := data.Map{}
+		if _, undef := v.(data.Undefined); !undef {
+			m["v"] = v
+		}
+		dsx := valueSexp(m, newIDTable())
+		for _, n := range names {
+			plans = append(plans, c06Plan{c: c06Render{Kind: "render", Files: files, Template: n, Data: dsx, Tag: "user-code"}, nontriv: true, hasJSON: true, user: true})
+		}
+	}
+	return plans
 }
